@@ -95,7 +95,7 @@ Proof. intros. unfold spec_encrypt. apply iter_range. exact H. Qed.
 Lemma ext_key_loop_cons : forall ie cf spe pcx mask fuel c r kv,
   ext_key_loop ie cf spe pcx mask (S fuel) (c :: r) kv =
   ext_key_loop ie cf spe pcx mask fuel (skipn 8 (c :: r)) (Z.lxor (Encrypt ie cf spe pcx mask kv kv 0 1) (Key (firstn 8 (c :: r)))).
-Proof. reflexivity. Qed.
+Proof. intros. cbn [ext_key_loop]. reflexivity. Qed.
 Lemma ext_key_loop_nil : forall ie cf spe pcx mask fuel kv, ext_key_loop ie cf spe pcx mask fuel [] kv = kv.
 Proof. intros. destruct fuel; reflexivity. Qed.
 Lemma ext_key_loop_0 : forall ie cf spe pcx mask pw kv, ext_key_loop ie cf spe pcx mask 0 pw kv = kv.
@@ -103,7 +103,7 @@ Proof. reflexivity. Qed.
 Lemma spec_ext_fold_cons : forall fuel c r kv,
   spec_ext_fold (S fuel) (c :: r) kv =
   spec_ext_fold fuel (skipn 8 (c :: r)) (Z.lxor (spec_encrypt kv kv 0 1) (spec_key (firstn 8 (c :: r)))).
-Proof. reflexivity. Qed.
+Proof. intros. cbn [spec_ext_fold]. reflexivity. Qed.
 Lemma spec_ext_fold_nil : forall fuel kv, spec_ext_fold fuel [] kv = kv.
 Proof. intros. destruct fuel; reflexivity. Qed.
 
